@@ -491,9 +491,12 @@ def loop_exit(ctx):
         neg = False
         while c_[0] == 'un' and c_[1] == 'Not':
             c_, neg = strip(c_[2]), not neg
-        if is_call(c_, '::is_empty'):
+        if c_[0] == 'bin' and c_[1] in ('Eq', 'Ne') and is_int(c_[3], 0) and is_call(strip(c_[2]), '::len'):
+            # `x.len() == 0` is `x.is_empty()`
+            c_, neg = strip(c_[2]), (not neg if c_[1] == 'Ne' else neg)
+        if is_call(c_, '::is_empty') or is_call(c_, '::len'):
             st_ = None
-            for cc in f.calls(lambda r: r['path'] and r['path'].endswith('::is_empty')):
+            for cc in f.calls(lambda r: r['path'] and (r['path'].endswith('::is_empty') or r['path'].endswith('::len'))):
                 if strip(f.expr_of_call(cc['term'])) == c_ and (cc['block'] == s_['block'] or f.dominates(cc['block'], s_['block'])):
                     st_ = opsites(cc['term']['args'][0])
             if st_:
